@@ -1,3 +1,7 @@
 //! Shared helpers for the end-to-end (real Session vs mock cluster) checks; bins under src/bin.
+pub mod sess;
+pub mod connleg;
+pub mod c12_model; // C12: cluster descriptors, cell/key search, expected first targets (cqlref only)
 pub mod c07_pager; // C07: page splits, reference expectation, scripted world, case runner, oracle
 pub mod c14_model; // C14: stateful node model, event alphabet, world (Session + mock), oracle
+pub mod retryleg; // C06/C13 E-MOCK legs: 3-node world, request identification on the wire, client calls, recording retry policy
